@@ -224,8 +224,21 @@ class C11Oracle(Oracle):
                 sim.violate(step, "labels", {"axis": axis, "got": got[:6], "expected": exp[:6], "zone": sim.env.zone})
 
     def buckets(self, sim, step, op, rec):
+        self._buckets(sim, step, op, rec, op["instants"])
+        if sim.violation is None and op.get("instants_b"):
+            # same length, first and last element, other interior; then the same array object changed in place
+            sim.stats["probe:bucket_collision_arrays"] += 1
+            self._buckets(sim, step, op, rec, op["instants_b"])
+            if sim.violation is None:
+                arr = np.array(op["instants"], int)
+                self._buckets(sim, step, op, rec, arr, quiet=True)
+                if sim.violation is None:
+                    arr[1:-1] = np.array(op["instants_b"], int)[1:-1]
+                    self._buckets(sim, step, op, rec, arr, quiet=True)
+
+    def _buckets(self, sim, step, op, rec, instants, quiet=False):
         import verif.axis
-        times = np.array(op["instants"], int)
+        times = instants if isinstance(instants, np.ndarray) else np.array(instants, int)
         for name, f in MC.BUCKET.items():
             try:
                 got = np.asarray(getattr(verif.axis, name)().compute_from_times(times)).tolist()
@@ -239,13 +252,14 @@ class C11Oracle(Oracle):
                                                           "zone": sim.env.zone})
                     return
         lts = op.get("leadtimes", [])
-        if lts:
+        if lts and not quiet:
             got = np.asarray(verif.axis.Leadtimeday().compute_from_leadtimes(np.array(lts, float))).tolist()
             exp = [MC.leadtimeday(h) for h in lts]
             if got != exp:
                 sim.violate(step, "bucket_function", {"axis": "Leadtimeday", "got": got, "expected": exp, "zone": sim.env.zone})
                 return
-        sim.stats["probe:bucket_instants"] += len(times)
+        if not quiet:
+            sim.stats["probe:bucket_instants"] += len(times)
 
     def conv(self, sim, step, op, rec):
         import verif.util as U
